@@ -18,6 +18,6 @@ package cloudblob
 //@   loop 1 invariant sc.n == old(sc.n) + idx + 1 && 0 - 1 <= idx && idx < len(ruleSets) && onc.n + onu.n <= old(onc.n) + old(onu.n) + idx + 1
 //@   ensures ret0 == nil ==> sc.n == old(sc.n) + len(ruleSets)
 //@   ensures onc.n + onu.n <= old(onc.n) + old(onu.n) + len(ruleSets)
-//@   assert at call OnCreated#1: sc.n > old(sc.n) && sc.ret0[sc.n - 1] && sc.arg1[sc.n - 1] == iface(callarg1.MetaData.Source)
-//@   assert at call OnUpdated#1: sc.n > old(sc.n) && !sc.ret0[sc.n - 1] && sc.arg1[sc.n - 1] == iface(callarg1.MetaData.Source) && beq.n > old(beq.n) && !beq.ret0[beq.n - 1] && beq.arg1[beq.n - 1] == callarg1.Hash
-//@   assert at call OnDeleted#1: callarg1 != nil && len(callarg1.Rules) == 0
+//@   assert at call OnCreated#1@5ad31d69.1: sc.n > old(sc.n) && sc.ret0[sc.n - 1] && sc.arg1[sc.n - 1] == iface(callarg1.MetaData.Source)
+//@   assert at call OnUpdated#1@b7304af4.1: sc.n > old(sc.n) && !sc.ret0[sc.n - 1] && sc.arg1[sc.n - 1] == iface(callarg1.MetaData.Source) && beq.n > old(beq.n) && !beq.ret0[beq.n - 1] && beq.arg1[beq.n - 1] == callarg1.Hash
+//@   assert at call OnDeleted#1@c98cf5d3.1: callarg1 != nil && len(callarg1.Rules) == 0
